@@ -72,6 +72,8 @@ try:
 finally:
     sh("git -C /repo checkout -- .")
     shutil.rmtree(os.path.join(ROOT, "replay"), ignore_errors=True)
+    # the runs above rewrote evidence/<pid>.json from the PATCHED tree: restore the committed files
+    sh("git -C /verif checkout -- " + " ".join(f"evidence/{p}.json" for p in pids))
 out_dir = os.path.join(ROOT, "seeded", name)
 os.makedirs(out_dir, exist_ok=True)
 shutil.copy(patch, out_dir)
